@@ -775,7 +775,8 @@ def c02(case: Case):
         n += 1
         mod, err = sdsparse.parse(text, strict=True)
         if err:
-            out.append({"what": f"{path} is not a valid stub file: {err}", "decl": path, "finding": None, "text": text[:1500]})
+            out.append({"what": f"{path} is not a valid stub file: {err}", "decl": path, "text": text[:1500],
+                        "finding": "non_ascii_identifier" if "non-ASCII identifier" in str(err) else None})
     return out, n
 
 
@@ -1139,7 +1140,10 @@ def names_relation(files_off: dict, files_on: dict) -> list:
             continue
         if (py != name) != ann:
             out.append({"what": f"{path}: {kind} {owner}.{py}: annotation present={ann} but rendered name is {name}", "decl": py, "finding": None})
-        if py != "_" and ("_" in name or name.lower() != py.replace("_", "").lower()):
+        kept = py == "_" or not py.strip("_") or py.strip("_")[0].isdigit()    # no identifier would be left: the name stays
+        if kept and name != py:
+            out.append({"what": f"{path}: {kind} {py} cannot be converted to an identifier but is rendered as {name}", "decl": py, "finding": None})
+        if not kept and ("_" in name or name.lower() != py.replace("_", "").lower()):
             out.append({"what": f"{path}: {kind} {py} is rendered as {name}", "decl": py, "finding": None})
         if kind == "class" and name[:1].islower():
             out.append({"what": f"{path}: class {py} is rendered as {name} (not UpperCamelCase)", "decl": py, "finding": None})
